@@ -144,7 +144,7 @@ def run(ctx, log):
             ctx.violate("a string literal made the front end crash", source=s, observed=o[:200], expected="a tree or a syntax error")
     front.front_corr(ctx, raw, ("tok", "parse"), log, label="raw-strings")
     # malformed stream: unterminated strings, illegal characters must be flagged, not dropped
-    bad = ['"abc', '"a\\"', 'a "b', "1 № 2", "a & b", "a | b", "x # y", " a", "a &| b", "a |& b", "a &&& b", "a ||| b", "a &&| b", "a |&& b", "a & & b", "a &= b", "a |= b", "1 } 2", "stel a = 1 } a", "{ } } 1", "1 ) 2", "1 ] 2", "als ja { 1 } } 2", "functie f() { 1 } } f()", "1 } print(\"weg\")"]
+    bad = ['"abc', '"a\\"', 'a "b', "1 № 2", "a & b", "a | b", "x # y", " a", "a &| b", "a |& b", "a &&& b", "a ||| b", "a &&| b", "a |&& b", "a & & b", "a &= b", "a |= b", "1 } 2", "stel a = 1 } a", "{ } } 1", "1 ) 2", "1 ] 2", "als ja { 1 } } 2", "functie f() { 1 } } f()", "1 } print(\"weg\")"] + ["1 +" + w + u + "2" for w in (" ", "\n", "\t", "  ", "") for u in ("\u00a0", "\u1680", "\u2000", "\u2003", "\u200a", "\u202f", "\u205f", "\u3000", "\u00a0\u00a0")] + ["[1,\n    \u00a0\u00a02]", "stel a = 1;\n \u3000a"]
     bobs = vlib.nlh("parse", [vlib.hexs(s) for s in bad], tag="c08b")
     for s, o in zip(bad, bobs):
         ctx.seen(s)
